@@ -11,7 +11,7 @@ import Mathlib.Tactic.Positivity
 
 open Lin Scalar
 
-namespace C17
+namespace C17P
 
 /-- the complex number `qw + qz·i` of an SO2 / C1 coefficient vector -/
 def cplx (g : Vec ℝ 2) : ℂ := ⟨g 1, g 0⟩
@@ -244,4 +244,4 @@ theorem c1_angle_eq (g : Vec ℝ 2) (h : C1.Valid g) : C1.angle g = Conv.angle (
     · rw [Complex.im_ofReal_mul]; simp [cplx, C1.so2, mk2, Vec.of, div_eq_inv_mul]
   rw [this, Complex.arg_real_mul _ (inv_pos.2 hn)]
 
-end C17
+end C17P
